@@ -181,6 +181,20 @@ pub fn check_run(ctx: &Ctx, prop_kind_prefix: &str, p: &Pos, cfg: &Cfg, run: &Ru
     true
 }
 
+/// Joins a search started through the public entry point, with a hang detector: a join
+/// that does not return is itself a violation of C04 (the thread is then leaked).
+pub fn join_timeout<T: Send + 'static>(h: std::thread::JoinHandle<T>, secs: u64) -> Result<T, String> {
+    let (tx, rx) = std::sync::mpsc::channel();
+    std::thread::spawn(move || {
+        let _ = tx.send(h.join());
+    });
+    match rx.recv_timeout(std::time::Duration::from_secs(secs)) {
+        Ok(Ok(v)) => Ok(v),
+        Ok(Err(_)) => Err("search thread panicked".into()),
+        Err(_) => Err(format!("join() did not return within {} s", secs)),
+    }
+}
+
 pub fn small_artifact(seed: u64, shape: (usize, usize)) -> SearchArtifact {
     SearchArtifact::verif_new(seed, shape.0, shape.1)
 }
@@ -379,11 +393,11 @@ pub fn run_c03(ctx: &Ctx) -> i32 {
                         }
                     }
                 }
-                let joined = h.join();
+                let joined = join_timeout(h, 30);
                 drop(tx);
                 l.inc("public_api_searches");
-                if joined.is_err() {
-                    ctx.violation("public-search-panicked", p.fen(), json!({"fen": p.fen(), "depth": depth}));
+                if let Err(e) = &joined {
+                    ctx.violation("public-search-join-failed", p.fen(), json!({"fen": p.fen(), "depth": depth, "error": e}));
                 } else if let Some((line, err)) = bad {
                     ctx.violation("public-illegal-line", p.fen(), json!({"fen": p.fen(), "depth": depth, "line": line, "error": err}));
                 } else if bests == 0 {
@@ -860,9 +874,9 @@ fn public_digest(p: &Pos, seed: u64, depth: usize) -> Result<String, String> {
             StatusEvent::Warning { .. } => s.push_str("W;"),
         }
     }
-    let r = h.join();
+    let r = join_timeout(h, 30);
     drop(tx);
-    r.map(|_| s).map_err(|_| "search thread panicked".to_string())
+    r.map(|_| s)
 }
 
 fn c19_cases(quick: bool, seeds: &[u64]) -> Vec<(usize, u64, usize, bool)> {
